@@ -250,8 +250,11 @@ def planted_pinf(rng, dims, n, p):
     return None
 
 
-def planted_dinf(rng, dims, n, p):
-    """strictly primal feasible with a strictly improving interior ray (dual infeasible)"""
+def planted_dinf(rng, dims, n, p, boundary=False):
+    """strictly primal feasible with a strictly improving interior ray (dual infeasible).
+    boundary=True (needs two 'l' rows and n >= 2): two rows are replaced by +w, -w with w orthogonal to the planted
+    ray, so EVERY ray of the problem satisfies w'x = 0: the slack of any valid certificate has exact zeros there
+    (a ray on the boundary of the recession cone)."""
     Np = dims.Np
     if p >= n or Np == 0 or n == 0:
         return None
@@ -265,6 +268,17 @@ def planted_dinf(rng, dims, n, p):
         sr = cone.symmetrize(cone.random_interior(rng, dims, 0.3, 2.0), dims)
         G2 = G + np.outer(-sr - G @ xr, xr)
         A2 = A - np.outer(A @ xr, xr)
+        if boundary:
+            if dims.l < 2 or n < 2:
+                return None
+            w = np.array([rng.gauss(0, 1) for _ in range(n)])
+            w = w - float(w @ xr) * xr
+            if np.linalg.norm(w) < 0.3:
+                continue
+            w /= np.linalg.norm(w)
+            i_, j_ = rng.sample(range(dims.l), 2)
+            G2[i_] = w; G2[j_] = -w
+            sr = sr.copy(); sr[i_] = 0.0; sr[j_] = 0.0
         s1, s2, smax = conditioning(G2, A2, dims)
         if p and not s2 >= 0.2:
             continue
@@ -279,6 +293,7 @@ def planted_dinf(rng, dims, n, p):
         if np.linalg.norm(G2 @ xr + sr) > 1e-12 * (1 + np.linalg.norm(sr)) or abs(c @ xr + 1) > 1e-12:
             continue
         pr.pl = {"x": xr, "s": sr, "x0": x0, "s0": s0, "margin_s": cone.margin(sr, dims), "sv": [s1, s2, smax]}
+        pr.boundary_ray = bool(boundary)
         return pr
     return None
 
